@@ -141,10 +141,7 @@ def run_stream(case: dict[str, Any], col: Collector | None) -> list[tuple[str, s
                 return
             reply = unhexlify(lines[0]) if data else None
             prev = b
-            if reply is not None and len(reply) >= 2 and reply[0] == 0x67 and reply[1] % 2 == 1:
-                last_seed = (reply[1], reply[2:])
-            elif b[0] != 0x3E:
-                last_seed = None
+            last_seed = vecu.next_last_seed(last_seed, b, reply)
             if col is not None:
                 col.case((case["seed"], str(case["params"]), session, b.hex(), "s"), session != 1 or (reply is not None and reply[0] != 0x7F),
                          cls=f"stream/{'silent' if reply is None else 'negative' if reply[0] == 0x7F else 'positive'}")
